@@ -954,9 +954,12 @@ func (r *Resolvable) printExtensions(ctx context.Context, fetchTree *FetchTreeNo
 				r.printBytes(comma)
 			}
 			counter++
-			r.printBytes(quote)
-			r.printBytes([]byte(key))
-			r.printBytes(quote)
+			// the key was taken from a subgraph's extensions object: encode it as a JSON string
+			encodedKey, err := json.Marshal(key)
+			if err != nil {
+				return err
+			}
+			r.printBytes(encodedKey)
 			r.printBytes(colon)
 			r.printNode(value)
 
